@@ -60,6 +60,17 @@ def reassignRev (x : Sym) (e : Expr) : List Stmt → Bool → List Stmt
 def reassign (ss : List Stmt) (x : Sym) (e : Expr) : List Stmt :=
   (reassignRev x e ss.reverse true).reverse
 
+/-! ### subs (a single symbol; `Statements.subs({x: t})`) -/
+
+/-- `Assignment.subs`: the left-hand symbol is replaced when it is `x` and `t` is a symbol; the
+    right-hand side gets `x := t`.  An ODE system is left to the harness (its rates are C05's). -/
+def substStmt (x : Sym) (t : Expr) : Stmt → Stmt
+  | .assign y e =>
+    .assign (if y = x then (match t with | .sym z => z | _ => y) else y) (Expr.subst1 x t e)
+  | .ode a r => .ode a r
+
+def substStmts (x : Sym) (t : Expr) (ss : List Stmt) : List Stmt := ss.map (substStmt x t)
+
 /-! ### dependency graph -/
 
 /-- Does statement `i` (reading `rhs`) depend directly on earlier statement `t`? -/
